@@ -340,19 +340,23 @@ structure RField where
   flattenSpan : Option Span := none
   deriving Inhabited
 
+/-- the default chain of `InputField::with_inherited`: own default > the container's (inherited per
+    field) > `Default::default()` for a skipped field > none -/
+def fieldDefault (own container : Option DefaultExpr) (skip : Option (Bool × Option Span)) : Option DefaultExpr :=
+  match own, container with
+  | some d, _ => some d
+  | none, some _ => some .inherit
+  | none, none => (match skip with
+      | some (true, sp) => some (.trait_ (sp.getD default))
+      | _ => none)
+
 /-- `InputField::with_inherited` + `as_codegen_field` -/
 def resolveField (core : CoreOpts) (ident : String) (ty : Ty) (s : FieldOpts) : Outcome RField :=
   let name : Outcome String := match s.attrName with
     | some n => .ok n
     | none => core.renameRule.applyToField ident
   name.bind fun name =>
-    let dflt : Option DefaultExpr :=
-      match s.dflt, core.dflt with
-      | some d, _ => some d
-      | none, some _ => some .inherit
-      | none, none => (match s.skip with
-          | some (true, sp) => some (.trait_ (sp.getD default))
-          | _ => none)
+    let dflt : Option DefaultExpr := fieldDefault s.dflt core.dflt s.skip
     .ok { ident, name, ty, with_ := s.with_, post := s.post, dflt,
           skip := skipTrue s, multiple := s.multiple.getD false, flatten := s.flatten.isSome,
           flattenSpan := s.flatten }
@@ -399,5 +403,264 @@ def variantFromDecl (o : Oracle) (core : CoreOpts) (v : VariantD) : Outcome RVar
           name.bind fun name =>
             .ok { ident := v.ident, name, style := v.style, fields := fs, skip := s.skip.getD false,
                   word := s.word, allowUnknown := core.allowUnknown.getD false }
+
+end Options
+
+/-! ## whole declarations -/
+namespace Options
+
+inductive RData where
+  | struct (style : Style) (fields : List RField)
+  | enum (variants : List RVariant)
+  deriving Inhabited
+
+/-- `codegen::TraitImpl` -/
+structure RCore where
+  ident : String
+  data : RData
+  dflt : Option DefaultExpr
+  post : Option Post
+  allowUnknown : Bool
+  typeParams : List String := []
+  deriving Inhabited
+
+structure RFromMeta where
+  base : RCore
+  /-- `from_word`: a user callable, or the generated `|| Ok(Self::Variant)` of a `word` variant -/
+  fromWord : Option (Sum String String)     -- inl callable | inr variant ident
+  fromNone : Option String
+  deriving Inhabited
+
+/-- `ForwardedField` -/
+structure Forwarded where
+  ident : String
+  with_ : Option String
+  deriving Repr, Inhabited
+
+structure ROuter where
+  trait_ : Trait
+  base : RCore
+  attrNames : List String
+  forward : Option FwdFilter
+  attrsField : Option Forwarded
+  dataField : Option Forwarded
+  magic : List String              -- magic fields present (by their Rust name)
+  fromIdent : Bool
+  supports : Option DISS
+  vsupports : Option DataShape
+  deriving Inhabited
+
+inductive Derived where
+  | fromMeta (r : RFromMeta)
+  | outer (r : ROuter)
+  deriving Inhabited
+
+/-- `impl ParseAttribute for ForwardedField`; `sim` = strsim score of the unknown name against "with" -/
+def forwardedStep (o : Oracle) (sim : String → Option (Nat × String)) (s : Option String) (mi : Meta) : StepR (Option String) :=
+  if mi.path'.isIdent "with" then
+    if s.isSome then .err s (dupErr mi) else
+    withRead s (readOptPath o mi) fun v => .ok v
+  else .err s ((Err.new (.unknownField mi.path'.toStr (sim mi.path'.toStr))).withSpan mi.span)
+
+/-- `ForwardedField::from_field` -/
+def forwardedFromField (o : Oracle) (sim : String → Option (Nat × String)) (f : FieldD) : Outcome Forwarded :=
+  match f.ident with
+  | none => .err ((Err.custom "forwarded field must be named field").withSpan f.span)
+  | some id =>
+      match finishWith (parseAttributes (forwardedStep o sim) none [] f.attrs) with
+      | .ok w => .ok ⟨id, w⟩
+      | .err e => .err e
+      | .panic m => .panic m
+
+/-- the parse state of a struct/enum body -/
+structure BodySt where
+  fields : List RField := []
+  variants : List RVariant := []
+  attrsField : Option Forwarded := none
+  dataField : Option Forwarded := none
+  magic : List String := []
+  errs : List Err := []
+  deriving Inhabited
+
+/-- magic field names recognised by each element-level trait's `parse_field`, in matching order
+    (trait-specific names first, then `OuterFrom`'s) -/
+def magicNames : Trait → List String
+  | .fromMeta => []
+  | .fromDeriveInput => ["vis", "data", "generics", "ident", "attrs"]
+  | .fromField => ["vis", "ty", "ident", "attrs"]
+  | .fromVariant => ["discriminant", "fields", "ident", "attrs"]
+  | .fromTypeParam => ["bounds", "default", "ident", "attrs"]
+  | .fromAttributes => ["ident", "attrs"]
+
+/-- one `errors.handle(self.parse_field(field))` -/
+def parseFieldStep (t : Trait) (o : Oracle) (sim : String → Option (Nat × String)) (core : CoreOpts)
+    (st : BodySt) (f : FieldD) : Except String BodySt :=
+  let isMagic := match f.ident with
+    | some id => (magicNames t).contains id
+    | none => false
+  if isMagic then
+    let id := f.ident.getD ""
+    if id == "attrs" || id == "data" then
+      match forwardedFromField o sim f with
+      | .ok fw => .ok (if id == "attrs" then { st with attrsField := some fw, magic := st.magic ++ [id] }
+                       else { st with dataField := some fw, magic := st.magic ++ [id] })
+      | .err e => .ok { st with errs := st.errs ++ [e] }
+      | .panic m => .error m
+    else .ok { st with magic := st.magic ++ [id] }
+  else
+    match fieldFromDecl o core f with
+    | .ok rf => .ok { st with fields := st.fields ++ [rf] }
+    | .err e => .ok { st with errs := st.errs ++ [e] }
+    | .panic m => .error m
+
+def parseFields (t : Trait) (o : Oracle) (sim : String → Option (Nat × String)) (core : CoreOpts) :
+    BodySt → List FieldD → Except String BodySt
+  | st, [] => .ok st
+  | st, f :: rest => match parseFieldStep t o sim core st f with
+      | .ok st' => parseFields t o sim core st' rest
+      | .error m => .error m
+
+/-- variants: FromMeta parses them; every element-level trait rejects each one -/
+def parseVariants (t : Trait) (o : Oracle) (core : CoreOpts) : BodySt → List VariantD → Except String BodySt
+  | st, [] => .ok st
+  | st, v :: rest =>
+      if t == .fromMeta then
+        match variantFromDecl o core v with
+        | .ok rv => parseVariants t o core { st with variants := st.variants ++ [rv] } rest
+        | .err e => parseVariants t o core { st with errs := st.errs ++ [e] } rest
+        | .panic m => .error m
+      else
+        parseVariants t o core { st with errs := st.errs ++ [(Err.unsupportedFormat "enum variant").withSpan v.span] } rest
+
+/-- `Core::validate_body`: more than one `flatten` field -/
+def flattenErrs (fields : List RField) : List Err :=
+  let targets := fields.filter (·.flatten)
+  if targets.length > 1 then
+    targets.map (fun f => (Err.custom "`#[darling(flatten)]` can only be applied to one field").withSpan (f.flattenSpan.getD default))
+  else []
+
+/-- `FromMetaOptions::validate_body` -/
+def fromMetaValidate (declIdentSpan : Span) (style? : Option Style) (nFields : Nat) (fm : FromMetaOpts)
+    (st : BodySt) (variantSpans : List (String × Span)) : List Err :=
+  match style? with
+  | some style =>
+      flattenErrs st.fields ++
+      (match fm.fromWord with
+       | some (_, sp) =>
+           if style == .unit then
+             [(Err.custom "`from_word` cannot be used on unit structs because it conflicts with the generated impl").withSpan sp]
+           else if style == .tuple && nFields == 1 then
+             [(Err.custom "`from_word` cannot be used on newtype structs because the implementation is entirely delegated to the inner type").withSpan sp]
+           else []
+       | none => []) ++
+      (if style == .tuple && nFields > 1 then
+         [(Err.custom "FromMeta cannot be derived for tuple structs with more than one field").withSpan declIdentSpan]
+       else [])
+  | none =>
+      let words := st.variants.filterMap (·.word)
+      (if !words.isEmpty then
+         match fm.fromWord with
+         | some (_, sp) => [(Err.custom "`from_word` cannot be used with an enum that also uses `word`").withSpan sp]
+         | none => []
+       else []) ++
+      (if words.length > 1 then
+         words.map (fun w => (Err.custom "`#[darling(word)]` can only be applied to one variant").withSpan (w.2.getD default))
+       else []) ++
+      (st.variants.filterMap (fun v =>
+         if v.style == .tuple && v.fields.length > 1 then
+           some ((Err.custom "FromMeta cannot be derived for tuple variants with more than one field").withSpan
+             ((variantSpans.find? (·.1 == v.ident)).map (·.2) |>.getD default))
+         else none))
+
+/-- the first variant with `word = true` -/
+def wordVariant (vs : List RVariant) : Option String :=
+  (vs.find? (fun v => match v.word with | some (b, _) => b | none => false)).map (·.ident)
+
+structure DeclSpans where
+  ident : Span := default
+  variantIdents : List (String × Span) := []
+
+/-- `FromMetaOptions::new(di)` followed by code generation -/
+def deriveFromMeta (o : Oracle) (sp : DeclSpans) (d : DeclD) : Outcome Derived :=
+  match d.body with
+  | .union => .err (Err.custom "Unions are not supported")
+  | body =>
+    let start : FromMetaOpts := { core := { renameRule := match body with | .enum _ => .snake | _ => .none } }
+    match finishWith (parseAttributes (fromMetaStep o) start [] d.attrs) with
+    | .err e => .err e
+    | .panic m => .panic m
+    | .ok fm =>
+      let bodyR : Except String BodySt := match body with
+        | .struct _ fs => parseFields .fromMeta o (fun _ => none) fm.core {} fs
+        | .enum vs => parseVariants .fromMeta o fm.core {} vs
+        | .union => .ok {}
+      match bodyR with
+      | .error m => .panic m
+      | .ok st =>
+        let (style?, n) : Option Style × Nat := match body with
+          | .struct s fs => (some s, fs.length)
+          | _ => (none, 0)
+        let errs := st.errs ++ fromMetaValidate sp.ident style? n fm st sp.variantIdents
+        match errs with
+        | [] =>
+            let data : RData := match body with
+              | .struct s _ => .struct s st.fields
+              | _ => .enum st.variants
+            .ok (.fromMeta {
+              base := { ident := d.ident, data, dflt := fm.core.dflt, post := fm.core.post,
+                        allowUnknown := fm.core.allowUnknown.getD false, typeParams := d.generics.typeParams },
+              fromWord := match fm.fromWord with
+                | some (c, _) => some (.inl c)
+                | none => (match body with
+                    | .enum _ => (wordVariant st.variants).map .inr
+                    | _ => none),
+              fromNone := fm.fromNone })
+        | errs => Err.bundleErr errs
+
+/-- `FdiOptions::new` / `FromFieldOptions::new` / … followed by code generation -/
+def deriveOuter (t : Trait) (o : Oracle) (sim : String → Option (Nat × String)) (sp : DeclSpans) (d : DeclD) : Outcome Derived :=
+  match d.body with
+  | .union => .err (Err.custom "Unions are not supported")
+  | body =>
+    match finishWith (parseAttributes (outerTraitStep t o) {} [] d.attrs) with
+    | .err e => .err e
+    | .panic m => .panic m
+    | .ok oo =>
+      let bodyR : Except String BodySt := match body with
+        | .struct _ fs => parseFields t o sim oo.core {} fs
+        | .enum vs => parseVariants t o oo.core {} vs
+        | .union => .ok {}
+      match bodyR with
+      | .error m => .panic m
+      | .ok st =>
+        let isEnum := match body with | .enum _ => true | _ => false
+        let validate :=
+          flattenErrs st.fields ++
+          (match st.attrsField with
+           | some a => if oo.forward.isNone then
+               [(Err.custom ("field will not be populated because `forward_attrs` is not set on the "
+                  ++ (if isEnum then "enum" else "struct"))).withSpan
+                  ((sp.variantIdents.find? (·.1 == "#attrs")).map (·.2) |>.getD default)]
+               else []
+           | none => []) ++
+          (if isEnum then [(Err.new (.unsupportedShape "enum" none)).withSpan sp.ident] else [])
+        match st.errs ++ validate with
+        | [] =>
+            let (style, n) : Style × Nat := match body with
+              | .struct s fs => (s, fs.length)
+              | _ => (.unit, 0)
+            if t == .fromAttributes && !(style == .tuple && n == 1) && oo.attrNames.isEmpty then
+              .err (Err.custom "FromAttributes without attributes collects nothing")
+            else
+            .ok (.outer {
+              trait_ := t,
+              base := { ident := d.ident, data := .struct style st.fields, dflt := oo.core.dflt, post := oo.core.post,
+                        allowUnknown := oo.core.allowUnknown.getD false, typeParams := d.generics.typeParams },
+              attrNames := oo.attrNames, forward := oo.forward, attrsField := st.attrsField, dataField := st.dataField,
+              magic := st.magic, fromIdent := oo.fromIdent, supports := oo.supports, vsupports := oo.vsupports })
+        | errs => Err.bundleErr errs
+
+def derive (t : Trait) (o : Oracle) (sim : String → Option (Nat × String)) (sp : DeclSpans) (d : DeclD) : Outcome Derived :=
+  if t == .fromMeta then deriveFromMeta o sp d else deriveOuter t o sim sp d
 
 end Options
